@@ -768,7 +768,7 @@ func realCase(run *vkit.Run, i int) *seqCase {
 func TestCheck(t *testing.T) {
 	run := vkit.New("C09", "seq", "exploration")
 	nReal := run.N(1, 20)
-	nLow := run.N(300, 10000)
+	nLow := run.N(300, 8000)
 	run.SetRule("each evaluation is one seeded sequence of 30-400 operations (create, put of a valid successor with changed/unchanged table, put of 11 inadmissible/stale variants, get, range, power-table probes, subscribe/unsubscribe, reopen with OpenStore/OpenOrCreateStore, refused open/create attempts) on a real certstore.Store, every observable compared with the reference model after every step (complete observation while <= 20 certificates are stored, after every (re)open and every 4th step; head, random certificates, a range window and the tables around the head and the nearest checkpoint after the other steps); checkpoint frequency lowered to 2/3/5/7 through the accessor, plus real-frequency runs (no accessor) crossing a multiple of 1440 twice; distinct = distinct (frequency, first-instance, operation-kind sequence); non-trivial = the sequence crossed a checkpoint boundary, had a refused put and a reopen")
 	run.Assume("the initial power table handed to the store is in canonical order (power descending, id ascending), as go-f3 produces it",
 		"the lowered checkpoint frequency is set through an injected accessor right after every open; where it does not divide 1440 the sequence stays clear of multiples of 1440 because the open functions derive the head table with the built-in frequency",
